@@ -228,10 +228,14 @@ const sigFlattenDup = "C18 client properties of a reflected object have one JSON
 const sigDecodeFlattenDup = "C18 codec decode populated of a reflected type -> err: field is already set, the field being a JSON name that two flatten levels of the object share"
 const sigDecodeOneofDup = "C18 codec decode populated of a reflected type -> err: field is already set, the field being the JSON name shared by an exposed oneof and a field"
 
-// the failing step builds or looks up a schema name that two descriptors share (Keys name it)
-const sigCollision = "C18 two descriptors with the same split name (package, names joined by _), the failing step involving that name -> type confusion (schema of another descriptor / codec failure / order-dependent answer)"
+// What is left of the split-name collision finding since fix 0e6056c (a schema name asked for by a second
+// descriptor is an error, never the schema of the first): on a SHARED cache the descriptor asked second
+// fails while a fresh cache answers it. Given only when (i) the fresh cache answers, (ii) the shared cache
+// returns the collision error of RefSchema.claim, (iii) the message reaches a name two descriptors of
+// that file set share. Every other symptom on a colliding name (schema of another descriptor, codec
+// failure, path that does not resolve, panic) is a NEW violation: that part is fixed.
+const sigCollision = "C18 shared SchemaCache, two descriptors with the same split name (package, names joined by _): the one asked second is an error (schema name is used by both), a fresh cache answers it"
 
-var reConfusion = regexp.MustCompile(`interface conversion|refers to \*|fresh panic|fresh err, shared ok|fresh ok, shared|newPropSet: field|path-resolves|getting mutable reference|no message for`)
 
 var reAlreadySet = regexp.MustCompile(`field ([A-Za-z0-9_]+) is already set`)
 
@@ -402,17 +406,12 @@ func runC18(cfg *vh.Config) error {
 					in[k] = v
 				}
 				in["step"] = o.Step
-				// (a field referring to an enum schema where a message is meant, or the reverse, is the part
-				// of the finding that 32db692 / d286176 turned into reflection errors: never relabelled)
-				if len(keys) > 0 && reConfusion.MatchString(sig+" "+got) && !strings.Contains(sig+" "+got, "EnumSchema") {
-					// one signature for the name-collision class, given only when the failure involves
-					// a colliding name; the stage and the names stay in Got
+				if len(keys) > 0 && sig == sigCollision {
 					var parties []string
 					for _, k := range keys {
 						parties = append(parties, k+" = "+strings.Join(scope.coll[k], " / "))
 					}
-					got = sig + " | " + got + " | colliding: " + strings.Join(parties, "; ")
-					sig = sigCollision
+					got = got + " | colliding: " + strings.Join(parties, "; ")
 				}
 				res.Fail(vh.Failure{Case: c.id, Stream: kind, Sig: sig, Clause: clause, Input: in, Got: got})
 			}
@@ -552,6 +551,8 @@ func runC18(cfg *vh.Config) error {
 					hk := scope.ofMessage(o.Names[i])
 					if s == "panic" {
 						failK(nil, fmt.Sprintf("C18 SchemaCache.Schema after an earlier failed build on the same cache -> panic: %s", normMsg(o.SubMsg[i])), "building J5 schemas returns a schema set or an error; it never panics", fmt.Sprintf("order=%v at %s: %s", o.Names, o.Names[i], o.SubMsg[i]))
+					} else if f, ok := fresh[o.Names[i]]; ok && f == "ok" && s == "err" && len(hk) > 0 && strings.Contains(o.SubMsg[i], "is used by both") {
+						failK(hk, sigCollision, "the answer does not depend on earlier calls", fmt.Sprintf("order=%v at %s: %s", o.Names, o.Names[i], o.SubMsg[i]))
 					} else if f, ok := fresh[o.Names[i]]; ok && f != s && (f == "ok" || s == "ok") {
 						failK(hk, fmt.Sprintf("C18 SchemaCache.Schema answer depends on earlier failed builds: fresh %s, shared %s: %s", f, s, normMsg(o.SubMsg[i])), "a failed build leaves no half-built entry that changes a later answer", fmt.Sprintf("order=%v at %s: %s", o.Names, o.Names[i], o.SubMsg[i]))
 					}
